@@ -1,6 +1,7 @@
 open BinNums
 open BinPosDef
 open Datatypes
+open Decimal
 
 module Pos =
  struct
@@ -161,4 +162,22 @@ module Pos =
     | Coq_xH -> (match q with
                  | Coq_xH -> true
                  | _ -> false)
+
+  (** val of_succ_nat : nat -> positive **)
+
+  let rec of_succ_nat = function
+  | O -> Coq_xH
+  | S x -> succ (of_succ_nat x)
+
+  (** val to_little_uint : positive -> uint **)
+
+  let rec to_little_uint = function
+  | Coq_xI p0 -> Little.succ_double (to_little_uint p0)
+  | Coq_xO p0 -> Little.double (to_little_uint p0)
+  | Coq_xH -> D1 Nil
+
+  (** val to_uint : positive -> uint **)
+
+  let to_uint p =
+    rev (to_little_uint p)
  end
